@@ -74,8 +74,18 @@ def build(rng):
         parts['footer1.xml'] = ('footer', f'<w:ftr {ns_decl(omit=("r",))}>' + p(r(f'«{tok[0]}»logo '), '<w:r><w:drawing><wp:inline><wp:docPr id="1" name="n"/><a:graphic><a:graphicData uri="u"><a:blip/></a:graphicData></a:graphic></wp:inline></w:drawing></w:r>'
                                 '<w:r><w:pict><v:shape><v:imagedata croptop="1f"/></v:shape></w:pict></w:r>', r(' here')) + '</w:ftr>')
         pics.append((tok[0], None, None)); pics.append((tok[0], None, None))
+        if names and rng.random() < 0.6:
+            # ... and a picture that declares the r prefix on itself: resolved like any other
+            from gen.docgen import NSMAP
+            tok[0] += 1; n = rng.choice(names)
+            extra['word/_rels/footer1.xml.rels'] = rels_xml([('rIdL', 'image', 'media/' + n)])
+            parts['footer1.xml'] = ('footer', parts['footer1.xml'][1].replace('</w:ftr>', p(r(f'«{tok[0]}»local '), f'<w:r><w:drawing><wp:inline><wp:docPr id="3" name="n"/><a:graphic><a:graphicData uri="u"><a:blip xmlns:r="{NSMAP["r"]}" r:embed="rIdL"/></a:graphicData></a:graphic></wp:inline></w:drawing></w:r>') + '</w:ftr>'))
+            pics.append((tok[0], 'media/' + n, None)); footer_related = n
     data = docx(body, docrels=drels, parts=parts, extra=extra)
     related = {}
+    if 'word/_rels/footer1.xml.rels' in extra:
+        for n in names:
+            if ('media/' + n) in (extra['word/_rels/footer1.xml.rels'] if isinstance(extra['word/_rels/footer1.xml.rels'], str) else extra['word/_rels/footer1.xml.rels'].decode()): related[n] = imgs[n]
     for rels in (drels, hrels if hdr is not None else [], frels if fn is not None else []):
         for rel in rels:
             if rel[1] == 'image' and not (len(rel) > 3 and rel[3]) and rel[2].startswith('media/') and rel[2][6:] in imgs:
